@@ -255,6 +255,13 @@ def build_answer(text, language, tag, cfg):
     if ranges is not None:
         for (o, l) in ranges:
             matches.append(make_match(text, o, l, tag, cfg))
+    elif cfg.get('flag_regex'):
+        import re
+        for i, m in enumerate(re.finditer(cfg['flag_regex'], text)):
+            if i >= cfg.get('flag_limit', 8):
+                break
+            matches.append(make_match(text, m.start(), m.end() - m.start(),
+                                      tag, cfg))
     else:
         for w in cfg.get('targets', []):
             o = text.find(w)
@@ -568,8 +575,9 @@ class SimNet:
             self.world.fire('req_' + fault)
         if req.get('dup_of') is not None:
             self.world.fire('req_duplicate')
+        sys.stderr.flush()
         self.world.ev('accept', idx=self.next, client=req.get('client', 0),
-                      fault=fault)
+                      fault=fault, err=os.lseek(2, 0, os.SEEK_CUR))
         self.next += 1
         return conn, ('127.0.0.1', 40000 + req.get('client', 0))
 
@@ -578,8 +586,10 @@ class SimNet:
         while self.next < len(self.requests):
             server._handle_request_noblock()
             conn = self.conns[-1]
+            sys.stderr.flush()
             self.world.ev('response', idx=conn.idx, nbytes=len(conn.sent),
-                          sha=hashlib.sha1(conn.sent).hexdigest()[:12])
+                          sha=hashlib.sha1(conn.sent).hexdigest()[:12],
+                          err=os.lseek(2, 0, os.SEEK_CUR))
         self.world.ev('server_idle')
 
     def responses(self):
